@@ -11,9 +11,14 @@ import DS.Model.CifRow
    `_tr_*` class attribute (`getattr`); `_get_atom_setters`.  The theorems say that `DS.CifRow.applySetter`,
    `setterTable`, `setterAttrs`, `fncName`, `itemOfName?` — the objects of the theorems of `DS.Props.C07Row` — *are* that
    transliteration, for every scalar type (hence for ℝ and for `Float`).
+   The two loop methods `_parse_atom_site_label` and `_parse_atom_site_aniso_label` (section 1b): transliterated statement by
+   statement (`continue` / `break` / the exception kinds kept); `parse_atom_site_label_eq` and `parse_atom_site_aniso_label_eq`
+   say that the model's `parseSite` / `parseAniso` (`siteLoop`, `anisoLoop`) are those transliterations for every input, with
+   every exception kind collapsed to the model's `none` (`_parseCifDataSource` turns all of them into `StructureFormatError`);
+   `attrs_chk_eq`: the setters that can raise are those the model marks `needsNum`, on the values `valueOK` rejects.
 2. **Recorded as text** (compared verbatim): the pattern of `_psymb` (what `DS.CifRow.symbolMatch` was written for; the
-   matcher itself is validated by the `cifrow.symbol` correspondence stream), the statements of the two loop methods and
-   of `_parseCifBlock` (what `siteLoop`, `anisoLoop`, `parseAtoms` were written from), of `Atom.xyz_cartn`,
+   matcher itself is validated by the `cifrow.symbol` correspondence stream), the statements
+   of `_parseCifBlock` (what `parseAtoms` was written from: fresh structure and dictionaries, the order of the two loops), of `Atom.xyz_cartn`,
    `_AtomCartesianCoordinates.__init__/__setitem__` (what `setCartnIx` was written from), `Structure.addNewAtom`,
    `getLastAtom` and the defaults of `Atom` (what `Atom.fresh` was written from).
 
@@ -128,58 +133,244 @@ theorem get_atom_setters_eq (keys : List String) :
       | some its => rfl
 end
 
+
+/-! ## 1b. the two loop methods, transliterated -/
+
+section
+variable {α : Type} [Add α] [Mul α] [Sub α] [Neg α] [Div α] [OfNat α 0] [OfNat α 1]
+  [OfNat α 2] [OfNat α 3] [OfNat α 8] [LT α] [DecidableLT α] [Elem α] [AdpConst α]
+
+
+/-- the setter of an item together with the condition under which its call returns (`valueOK`) -/
+def setterOf (it : Item) : Src.CifRow.Setter α := { ok := valueOK it, run := fun a v => applySetter it v a }
+
+/-- `leading_float(value, d)` returns iff the text starts with a number or is `.` / `?` -/
+theorem leadingFloat_isSome (d : α) : (fun v : Value α => (leadingFloat? v d).isSome) = fun v => v.num.isSome || isUnknown v.text := by
+  funext v
+  unfold leadingFloat?
+  cases v.num with
+  | some x => rfl
+  | none => cases isUnknown v.text <;> rfl
+
+/-- which setters can raise: exactly those the model marks `needsNum`, on exactly the values `valueOK` rejects -/
+theorem attrs_chk_eq : (Src.CifRow.attrs_chk : List (String × Src.CifRow.Setter α)) = setterAttrs.map (fun p => (p.1, setterOf p.2)) := by
+  simp only [Src.CifRow.attrs_chk, setterAttrs, List.map_cons, List.map_nil]
+  have h : (Src.CifRow.tr_atom_site_label : Atom α → Value α → Atom α) = fun a v => applySetter .label v a :=
+    funext fun a => funext fun v => tr_label_eq a v
+  rw [h]
+  unfold Src.CifRow.tr_atom_site_fract_x_ok Src.CifRow.tr_atom_site_fract_y_ok Src.CifRow.tr_atom_site_fract_z_ok
+    Src.CifRow.tr_atom_site_cartn_x_ok Src.CifRow.tr_atom_site_cartn_y_ok Src.CifRow.tr_atom_site_cartn_z_ok
+    Src.CifRow.tr_atom_site_U_iso_or_equiv_ok Src.CifRow.tr_atom_site_B_iso_or_equiv_ok Src.CifRow.tr_atom_site_occupancy_ok
+    Src.CifRow.tr_atom_site_aniso_U_11_ok Src.CifRow.tr_atom_site_aniso_U_22_ok Src.CifRow.tr_atom_site_aniso_U_33_ok
+    Src.CifRow.tr_atom_site_aniso_U_12_ok Src.CifRow.tr_atom_site_aniso_U_13_ok Src.CifRow.tr_atom_site_aniso_U_23_ok
+    Src.CifRow.tr_atom_site_aniso_B_11_ok Src.CifRow.tr_atom_site_aniso_B_22_ok Src.CifRow.tr_atom_site_aniso_B_33_ok
+    Src.CifRow.tr_atom_site_aniso_B_12_ok Src.CifRow.tr_atom_site_aniso_B_13_ok Src.CifRow.tr_atom_site_aniso_B_23_ok
+  simp only [leadingFloat_isSome]
+  rfl
+
+/-- `_get_atom_setters(cifloop)` with the raise conditions = the model's items -/
+theorem get_atom_setters_chk_eq (keys : List String) :
+    (Src.CifRow.get_atom_setters_chk keys : Option (List (Src.CifRow.Setter α))) = (keys.mapM itemOfName?).map (List.map setterOf) := by
+  unfold Src.CifRow.get_atom_setters_chk
+  induction keys with
+  | nil => rfl
+  | cons k ks ih =>
+    have hk : (Src.CifRow.attrs_chk (α := α)).lookup (Src.CifRow.fncName k) = (itemOfName? k).map setterOf := by
+      rw [attrs_chk_eq, fncName_eq]
+      exact lookup_map_snd setterOf (fncName k) setterAttrs
+    simp only [List.mapM_cons, hk, ih]
+    cases itemOfName? k with
+    | none => rfl
+    | some it =>
+      cases List.mapM itemOfName? ks with
+      | none => rfl
+      | some its => rfl
+
+/-- the inner loop `for fset, val in zip(prop_setters, values): fset(a, val)`: the setters run in column order; a `ValueError`
+of any of them is the failure of the model's `colsValid` test (which the model makes before the first setter runs) -/
+theorem runSetters_eq : ∀ (its : List Item) (vals : List (Value α)) (a : Atom α),
+    Src.CifRow.runSetters (its.map setterOf) vals a =
+      if colsValid (its.zip vals) then .ok (applyCols (its.zip vals) a) else .error Src.CifRow.Exc.ValueError
+  | [], vals, a => by simp [Src.CifRow.runSetters, Src.CifRow.forLoop, colsValid, applyCols]
+  | it :: its, [], a => by simp [Src.CifRow.runSetters, Src.CifRow.forLoop, colsValid, applyCols]
+  | it :: its, v :: vals, a => by
+    have ih := runSetters_eq its vals (applySetter it v a)
+    unfold Src.CifRow.runSetters at ih ⊢
+    simp only [List.map_cons, List.zip_cons_cons, Src.CifRow.forLoop, setterOf] at ih ⊢
+    cases hv : valueOK it v with
+    | false => simp [colsValid, hv]
+    | true =>
+      simp only [if_true]
+      rw [ih]
+      simp only [colsValid, applyCols, List.all_cons, List.foldl_cons, hv, Bool.true_and]
+      rfl
+
+/-- `Src.CifRow.Flow` seen through the model's loop state -/
+def collapse {σ : Type} : Src.CifRow.Flow σ → LoopSt σ
+  | .next s => .run s
+  | .brk s => .done s
+  | .raise _ => .err
+
+/-- a round function on running states, as a step of a fold over `LoopSt` (the shape of `anisoStep`) -/
+def liftStep {σ β : Type} (step : σ → β → LoopSt σ) : LoopSt σ → β → LoopSt σ
+  | .run s, x => step s x
+  | y, _ => y
+
+theorem foldl_liftStep_done {σ β : Type} (step : σ → β → LoopSt σ) (s : σ) : ∀ l : List β, l.foldl (liftStep step) (.done s) = .done s
+  | [] => rfl
+  | _ :: l => foldl_liftStep_done step s l
+
+theorem foldl_liftStep_err {σ β : Type} (step : σ → β → LoopSt σ) : ∀ l : List β, l.foldl (liftStep step) .err = .err
+  | [] => rfl
+  | _ :: l => foldl_liftStep_err step l
+
+/-- a `for` loop with `continue` / `break` / exceptions is the fold of its rounds over the model's loop state -/
+theorem forLoop_foldl {σ β : Type} (body : σ → β → Src.CifRow.Flow σ) (step : σ → β → LoopSt σ) (h : ∀ s x, collapse (body s x) = step s x) :
+    ∀ (xs : List β) (s : σ), (Src.CifRow.forLoop body s xs).toOption = (xs.foldl (liftStep step) (.run s)).result
+  | [], s => rfl
+  | x :: xs, s => by
+    have hx := h s x
+    simp only [Src.CifRow.forLoop, List.foldl_cons, liftStep]
+    rw [← hx]
+    cases hb : body s x with
+    | next s' => simp only [collapse]; exact forLoop_foldl body step h xs s'
+    | brk s' => simp only [collapse]; rw [foldl_liftStep_done]; rfl
+    | raise e => simp only [collapse]; rw [foldl_liftStep_err]; rfl
+
+/-- a `for` loop without `break` whose rounds are the model's `siteRow` is the model's `siteLoop` -/
+theorem forLoop_siteLoop (lat : Option (LatData α)) (its : List Item) (ilb : Nat) (doesAdp : Bool)
+    (body : PState α → List (Value α) → Src.CifRow.Flow (PState α))
+    (h : ∀ s v, collapse (body s v) = match siteRow lat its ilb doesAdp s v with | some s' => LoopSt.run s' | none => LoopSt.err) :
+    ∀ (rows : List (List (Value α))) (s : PState α), (Src.CifRow.forLoop body s rows).toOption = siteLoop lat its ilb doesAdp s rows
+  | [], s => rfl
+  | v :: rows, s => by
+    have hv := h s v
+    simp only [Src.CifRow.forLoop, siteLoop]
+    cases hb : body s v with
+    | next s' =>
+      rw [hb] at hv
+      cases hr : siteRow lat its ilb doesAdp s v with
+      | none => rw [hr] at hv; simp [collapse] at hv
+      | some s'' =>
+        rw [hr] at hv
+        simp only [collapse, LoopSt.run.injEq] at hv
+        subst hv
+        exact forLoop_siteLoop lat its ilb doesAdp body h rows s'
+    | brk s' =>
+      rw [hb] at hv
+      cases hr : siteRow lat its ilb doesAdp s v with
+      | none => rw [hr] at hv; simp [collapse] at hv
+      | some s'' => rw [hr] at hv; simp [collapse] at hv
+    | raise e =>
+      rw [hb] at hv
+      cases hr : siteRow lat its ilb doesAdp s v with
+      | none => rfl
+      | some s'' => rw [hr] at hv; simp [collapse] at hv
+
+/-- **`P_cif._parse_atom_site_label`** (transliterated statement by statement) **is the model's `parseSite`**: `does_adp_type` from the two
+`in atom_site_loop` tests, the setters of `_get_atom_setters`, `ilb = keys().index("_atom_site_label")` (a `ValueError` here is kept
+as an error on both sides; after the `in block` test of `_parseCifBlock` it does not occur), and per row: `?` label → `continue`,
+`labelindex[label] = len(stru)`, a fresh atom appended, the setters in column order, `anisotropy[label] = a.anisotropy` iff
+`does_adp_type`.  Every exception kind (`KeyError`, `IndexError`, `ValueError`, `AttributeError`) is the model's `none`. -/
+theorem parse_atom_site_label_eq (lat : Option (LatData α)) (lp : Loop α) :
+    (Src.CifRow.parse_atom_site_label lat lp PState.empty).toOption = parseSite lat lp := by
+  unfold Src.CifRow.parse_atom_site_label parseSite
+  simp only [get_atom_setters_chk_eq]
+  cases hm : lp.names.mapM itemOfName? with
+  | none => rfl
+  | some its =>
+    cases hi : lp.names.idxOf? "_atom_site_label" with
+    | none => rfl
+    | some ilb =>
+      simp only [Option.map_some]
+      refine forLoop_siteLoop lat its ilb _ _ ?_ lp.rows PState.empty
+      intro s v
+      simp only [siteRow, rowLabel]
+      cases v[ilb]? with
+      | none => rfl
+      | some c =>
+        simp only [Option.map_some, runSetters_eq]
+        cases hq : (c.text == "?") with
+        | true => simp [collapse]
+        | false =>
+          simp only [Bool.false_eq_true, if_false]
+          cases hc : colsValid (its.zip v) with
+          | false => simp [collapse]
+          | true =>
+            simp only [if_true, Bool.not_true, Bool.false_eq_true, if_false, collapse]
+            cases (lp.names.contains "_atom_site_adp_type" || lp.names.contains "_atom_site_thermal_displace_type") <;> rfl
+
+/-- **`P_cif._parse_atom_site_aniso_label`** (transliterated statement by statement) **is the model's `parseAniso`**:
+`"_atom_site_aniso_label" not in block` → nothing happens; per row: `?` label → `break` (the remaining rows are not read),
+`idx = labelindex[lb]` (`KeyError` for a label the site loop did not record — an error kind of the transliteration, `none` in the
+model, `StructureFormatError` in `_parseCifDataSource`), `a = stru[idx]`, `lb not in anisotropy` → `a.anisotropy = True;
+anisotropy[lb] = True` (the dictionary consulted is `anisotropy`, and it is consulted before the setters run), the setters in column
+order, the atom written back at `idx`. -/
+theorem parse_atom_site_aniso_label_eq (lat : Option (LatData α)) (lp : Option (Loop α)) (st : PState α) :
+    (Src.CifRow.parse_atom_site_aniso_label lat lp st).toOption = parseAniso lp st := by
+  unfold Src.CifRow.parse_atom_site_aniso_label parseAniso
+  cases lp with
+  | none => rfl
+  | some lp =>
+    simp only [get_atom_setters_chk_eq]
+    cases hi : lp.names.idxOf? "_atom_site_aniso_label" with
+    | none => cases lp.names.mapM itemOfName? <;> rfl
+    | some ilb =>
+      cases hm : lp.names.mapM itemOfName? with
+      | none => rfl
+      | some its =>
+        simp only [Option.map_some, anisoLoop]
+        have hstep : anisoStep its ilb = liftStep (anisoRow (α := α) its ilb) := by
+          funext x vals; cases x <;> rfl
+        rw [hstep]
+        refine forLoop_foldl _ _ ?_ lp.rows st
+        intro s v
+        simp only [anisoRow, rowLabel]
+        cases v[ilb]? with
+        | none => rfl
+        | some c =>
+          simp only [Option.map_some, runSetters_eq]
+          cases hq : (c.text == "?") with
+          | true => simp [collapse]
+          | false =>
+            simp only [Bool.false_eq_true, if_false]
+            cases s.labelindex c.text with
+            | none => rfl
+            | some idx =>
+              simp only []
+              cases s.atoms[idx]? with
+              | none => rfl
+              | some a0 =>
+                simp only []
+                cases hk : (s.anisotropy c.text).isSome <;>
+                  cases hc : colsValid (its.zip v) <;> simp [collapse]
+
+/-- the loop item each method fetches with `block.GetLoop` (what the `Loop` argument of the two definitions stands for) -/
+theorem loop_items_eq : Src.CifRow.parse_atom_site_label_item = "_atom_site_label" ∧
+    Src.CifRow.parse_atom_site_aniso_label_item = "_atom_site_aniso_label" := ⟨rfl, rfl⟩
+
+end
+
+/-- the error kind of an outcome (`none`: the method returned) -/
+def excOf {σ : Type} : Except Src.CifRow.Exc σ → Option Src.CifRow.Exc
+  | .ok _ => none
+  | .error e => some e
+
+/-- the error kind is kept by the transliteration: an aniso row whose label the site loop did not record is a `KeyError` -/
+example : excOf (Src.CifRow.parse_atom_site_aniso_label (α := Float) none
+    (some { names := ["_atom_site_aniso_label"], rows := [[{ text := "X1", num := none }]] }) PState.empty)
+    = some .KeyError := by decide
+/-- … and a `?` label ends the loop before that row is looked at -/
+example : excOf (Src.CifRow.parse_atom_site_aniso_label (α := Float) none
+    (some { names := ["_atom_site_aniso_label"], rows := [[{ text := "?", num := none }], [{ text := "X1", num := none }]] }) PState.empty)
+    = none := by decide
+
 /-! ## 2. recorded as text -/
 
 theorem leading_float_default_eq : Src.CifRow.leading_float_default = "0.0" := rfl
 
 /-- the regular expression `DS.CifRow.symbolMatch` transcribes -/
 theorem psymb_pattern_eq : Src.CifRow.psymb_pattern = psymbPattern := rfl
-
-/-- `_parse_atom_site_label` (model `DS.CifRow.siteLoop` / `parseSite`): `?` label → `continue`; `labelindex[label] = len(stru)`
-before the atom is added; fresh atom in the structure's lattice; setters in column order; `anisotropy[label]` recorded
-iff the loop has an adp-type column -/
-theorem parse_atom_site_label_eq : Src.CifRow.parse_atom_site_label =
-  ["(self, block)",
-   "atom_site_loop = block.GetLoop('_atom_site_label')",
-   "does_adp_type = '_atom_site_adp_type' in atom_site_loop or '_atom_site_thermal_displace_type' in atom_site_loop",
-   "prop_setters = P_cif._get_atom_setters(atom_site_loop)",
-   "ilb = atom_site_loop.keys().index('_atom_site_label')",
-   "sitedatalist = zip(*atom_site_loop.values())",
-   "for values in sitedatalist:",
-   "    curlabel = values[ilb]",
-   "    if curlabel == '?':",
-   "        continue",
-   "    self.labelindex[curlabel] = len(self.stru)",
-   "    self.stru.addNewAtom()",
-   "    a = self.stru.getLastAtom()",
-   "    for fset, val in zip(prop_setters, values):",
-   "        fset(a, val)",
-   "    if does_adp_type:",
-   "        self.anisotropy[curlabel] = a.anisotropy",
-   "return"] := rfl
-
-/-- `_parse_atom_site_aniso_label` (model `DS.CifRow.anisoLoop` / `parseAniso`): `?` label → `break`; `labelindex[lb]`
-(KeyError otherwise); flag forced on iff the label is not in `anisotropy`; setters in column order -/
-theorem parse_atom_site_aniso_label_eq : Src.CifRow.parse_atom_site_aniso_label =
-  ["(self, block)",
-   "if '_atom_site_aniso_label' not in block:",
-   "    return",
-   "adp_loop = block.GetLoop('_atom_site_aniso_label')",
-   "ilb = adp_loop.keys().index('_atom_site_aniso_label')",
-   "prop_setters = P_cif._get_atom_setters(adp_loop)",
-   "sitedatalist = zip(*adp_loop.values())",
-   "for values in sitedatalist:",
-   "    lb = values[ilb]",
-   "    if lb == '?':",
-   "        break",
-   "    idx = self.labelindex[lb]",
-   "    a = self.stru[idx]",
-   "    if lb not in self.anisotropy:",
-   "        a.anisotropy = True",
-   "        self.anisotropy[lb] = True",
-   "    for fset, val in zip(prop_setters, values):",
-   "        fset(a, val)",
-   "return"] := rfl
 
 /-- `_parseCifBlock` (model `DS.CifRow.parseAtoms`): fresh structure and dictionaries, lattice, site loop, aniso loop, symmetry -/
 theorem parseCifBlock_eq : Src.CifRow.parseCifBlock =
